@@ -321,6 +321,42 @@ def decCek (P : Prims) (jwe cek : Json) : Option Bs :=
       (decBody P jwe cek).bind fun f => (B64.decode text).bind f
   | _ => none
 
+/-! ### PBES2 parameters (lib/openssl/pbes2.c) -/
+
+/-- the password: a JSON string as is, or the "k" of an oct key, at most KEYMAX bytes -/
+def pbes2Password (jwk : Json) : Option Bs :=
+  match jwk with
+  | .str s => some (B64.bytesOfString s)
+  | other => (match bytesOfJson (other.get? "k") with
+      | some k => if k.length > keymax then none else some k
+      | none => none)
+
+/-- `pbkdf2()` of pbes2.c: the derived key-wrapping key as a JWK.  This is the only place the
+    key-derivation primitive is consulted. -/
+def pbes2Key (P : Prims) (name h : String) (klen : Nat) (jwk : Json) (st : Bs) (iter : Int) : Option Json :=
+  (pbes2Password jwk).bind fun pw =>
+  (P.pbkdf2 h pw (B64.bytesOfString name ++ [0] ++ st) iter klen).map fun dk =>
+    .obj [("kty", .str "oct"), ("k", B64.enc dk)]
+
+/-- `alg_wrap_unw`: the iteration count and salt taken from the merged header, after the guards
+    and *before* any derivation.  The count is a 64-bit JSON integer; it is handed to `pbkdf2(int iter)`,
+    i.e. narrowed to 32 bits (`Gen.toInt32`). -/
+def pbes2UnwParams (hdr : Json) : Option (Int × Bs) :=
+  match hdr.get? "p2c" with
+  | some (.int p2c) =>
+    if p2c < 1 || p2c > p2cMax then none else
+    (match bytesOfJson (hdr.get? "p2s") with
+     | some st => if st.length < 8 || st.length > keymax then none else some (Gen.toInt32 p2c, st)
+     | none => none)
+  | _ => none
+
+/-- `alg_wrap_wrp`: the iteration count used and recorded: the header's `p2c` as a 64-bit integer
+    (`none` inside = absent: the default is the maximum), refused outside [min, max] -/
+def pbes2WrpIter (hdr : Json) : Option Int :=
+  (Gen.optInt hdr "p2c").bind fun p2cO =>
+    let p2c : Int := match p2cO with | some v => v | none => p2cMax
+    if p2c < p2cMin || p2c > p2cMax then none else some p2c
+
 /-! ### key management: wrapping -/
 
 /-- `find_alg` of lib/jwe.c: header's alg, else a suggestion which is recorded in the recipient header -/
@@ -498,21 +534,11 @@ def wrp (P : Prims) : Nat → String → Json → Json → Json → Json → Bs 
       hkvO.bind fun hkv0 =>
       let rcp0 : Json := .obj (setKV "header" (.obj hkv0) rkvs)
       (jweHdr jwe (some rcp0)).bind fun hdr =>
-      -- "{s?I}": the iteration count as a 64-bit integer
-      (Gen.optInt hdr "p2c").bind fun p2cO =>
-      let p2c : Int := match p2cO with | some v => v | none => p2cMax
+      (pbes2WrpIter hdr).bind fun p2c =>
       let hkv1 := if (hdr.get? "p2c").isSome then hkv0 else setKV "p2c" (.int p2c) hkv0
-      if p2c < p2cMin || p2c > p2cMax then none else
       let hkv2 := setKV "p2s" (B64.enc st) hkv1
-      let pwO : Option Bs :=
-        match jwk with
-        | .str s => some (B64.bytesOfString s)
-        | other => (match bytesOfJson (other.get? "k") with
-            | some k => if k.length > keymax then none else some k
-            | none => none)
-      pwO.bind fun pw =>
-      (P.pbkdf2 h pw (B64.bytesOfString name ++ [0] ++ st) p2c klen).bind fun dk =>
-        wrp P fuel aes jwe (.obj (setKV "header" (.obj hkv2) rkvs)) (.obj [("kty", .str "oct"), ("k", B64.enc dk)]) cek' []
+      (pbes2Key P name h klen jwk st p2c).bind fun key =>
+        wrp P fuel aes jwe (.obj (setKV "header" (.obj hkv2) rkvs)) key cek' []
     | _, _ => none
 
 /-- `jose_jwe_enc_jwk(cfg, jwe, rcp, jwk, cek)` for one key; `none` = false -/
@@ -588,23 +614,8 @@ def unw (P : Prims) : Nat → String → Json → Json → Json → Json → Bs 
        | _, _ => none)
     | some (.pbes2 h aes klen), .obj _ =>
       (jweHdr jwe (some rcp)).bind fun hdr =>
-      (match hdr.get? "p2c" with
-       | some (.int p2c) =>
-         if p2c > p2cMax then none else
-         (match bytesOfJson (hdr.get? "p2s") with
-          | some st =>
-            if st.length < 8 || st.length > keymax then none else
-            let pwO : Option Bs :=
-              match jwk with
-              | .str s => some (B64.bytesOfString s)
-              | other => (match bytesOfJson (other.get? "k") with
-                  | some k => if k.length > keymax then none else some k
-                  | none => none)
-            pwO.bind fun pw =>
-            (P.pbkdf2 h pw (B64.bytesOfString name ++ [0] ++ st) (Gen.toInt32 p2c) klen).bind fun dk =>
-              unw P fuel aes jwe rcp (.obj [("kty", .str "oct"), ("k", B64.enc dk)]) cek []
-          | none => none)
-       | _ => none)
+      (pbes2UnwParams hdr).bind fun (iter, st) =>
+      (pbes2Key P name h klen jwk st iter).bind fun key => unw P fuel aes jwe rcp key cek []
     | _, _ => none
 
 /-- how the header's alg / enc and the key's alg are reconciled by `jose_jwe_dec_jwk` -/
